@@ -607,10 +607,28 @@ func init() {
 		}
 		passThrough := strings.Contains(src(cfset, lq.Body), "IDs: storeIDs")
 
+		// the in-process bypass flag
+		acfset, acf, err := parseFile(repo, "pkg/authclaims/authclaims.go")
+		if err != nil {
+			return Result{}, err
+		}
+		skipGet := findFunc(acf, "", "SkipAuthzCheckFromContext")
+		skipSet := findFunc(acf, "", "ContextWithSkipAuthzCheck")
+		claimsGet := findFunc(acf, "", "AuthClaimsFromContext")
+		if skipGet == nil || skipSet == nil || claimsGet == nil {
+			return Result{}, fmt.Errorf("pkg/authclaims: SkipAuthzCheckFromContext / ContextWithSkipAuthzCheck / AuthClaimsFromContext not found")
+		}
+		skSkipGet := authzSkeleton(acfset, skipGet.Body)
+		skSkipSet := authzSkeleton(acfset, skipSet.Body)
+		skClaimsGet := authzSkeleton(acfset, claimsGet.Body)
+
 		// ---------- Lean ----------
 		var sb strings.Builder
 		sb.WriteString(genHeader)
 		sb.WriteString("namespace OpenFGAVerif.Gen.Authz\n\n")
+		sb.WriteString("def skSkipAuthzCheckFromContext : List String := " + leanStrList(skSkipGet) + "\n")
+		sb.WriteString("def skContextWithSkipAuthzCheck : List String := " + leanStrList(skSkipSet) + "\n")
+		sb.WriteString("def skAuthClaimsFromContext : List String := " + leanStrList(skClaimsGet) + "\n")
 		sb.WriteString("/-- `getRelation` (internal/authz/authz.go): API method (string value) -> relation (string value), in source order -/\n")
 		sb.WriteString("def methodRelation : List (String × String) := [\n")
 		for i, e := range table {
